@@ -29,6 +29,8 @@ class E2(enum.Enum, shape=unsigned(2)):
 
 
 def make_sig(cls, p, form=0):
+    # every integer parameter is rebuilt, so that two signatures never share the int OBJECTS of their parameters
+    p = {k: (int(str(v)) if isinstance(v, int) and not isinstance(v, bool) else v) for k, v in p.items()}
     if cls == "csr.Signature":
         return csr.Signature(addr_width=p["aw"], data_width=p["dw"])
     if cls == "csr.Element.Signature":
@@ -220,6 +222,15 @@ def main(tier):
         raise common.MachineryError("Ports specification is inconsistent: " + str(res.errors))
     run.add_tlc(res, "Ports_MC: parameter tuples enumerated, roles complementary")
     tuples = res.edges("TUPLE")
+    # scale: widths beyond a machine word and beyond CPython's small-integer cache (the specification's role and
+    # width rules are stated for any width)
+    for w in (257, 320, 1000):
+        for acc in ("r", "w", "rw"):
+            tuples.append({"cls": "csr.Element.Signature", "p": {"w": w, "access": acc}})
+        for sg in (0, 1):
+            tuples.append({"cls": "csr.FieldPort.Signature", "p": {"w": w, "signed": sg, "access": "rw"}})
+    for aw, dw in ((33, 72), (64, 320)):
+        tuples.append({"cls": "csr.Signature", "p": {"aw": aw, "dw": dw}})
     r = rng("c20-main")
     by_cls = {}
     for t in tuples:
